@@ -12,6 +12,57 @@ from sa.rules.c01 import python_codec_tables
 RG = f"{C.ITER_MOD}:RustGenerator"
 
 
+def check_release(ctx: Context, rep, rule: str) -> None:
+    rep.rule(
+        rule,
+        "the native iterator is always released: as_numpy_iterator_rust "
+        "uses RustGenerator as a context manager around the generator it "
+        "yields from (so abandoning the iteration runs __exit__), and "
+        "RustGenerator.__exit__ forwards to the live native iterator's "
+        "__exit__, which removes the Rust state and joins its threads")
+    fn = ctx.fn(f"{C.ITER_MOD}:DatasetIteration.as_numpy_iterator_rust")
+    ctor = [c for c in fn.calls() if any(
+        t.kind == "class" and t.cls.name == "RustGenerator"
+        for t in ctx.res.resolve_call(fn, c, count=False))]
+    if not ctor:
+        raise AnalysisError("C15.release: RustGenerator construction not "
+                            "found in as_numpy_iterator_rust")
+    withs = [w for w in fn.body_nodes() if isinstance(w, (ast.With,
+                                                         ast.AsyncWith))]
+    for c in ctor:
+        w = next((w for w in withs if any(it.context_expr is c
+                                          for it in w.items)), None)
+        ok = w is not None
+        if ok:
+            var = next(it.optional_vars for it in w.items
+                       if it.context_expr is c)
+            ok = isinstance(var, ast.Name) and any(
+                isinstance(y, ast.YieldFrom) and isinstance(
+                    y.value, ast.Call) and dotted(y.value.func) == var.id
+                for s in w.body for y in ast.walk(s))
+        rep.ob(rule, ok, loc=fn.loc(c), where=fn.qualname,
+               construct="with RustGenerator(...) as g: yield from g()",
+               message="the generator is consumed inside the `with` block "
+               "of its RustGenerator")
+    ex = ctx.fn(f"{RG}.__exit__")
+    calls = [c for c in ex.calls() if isinstance(c.func, ast.Attribute) and
+             c.func.attr == "__exit__" and dotted(c.func.value) ==
+             "self._rust_iter"]
+    guards = [n for n in ex.body_nodes() if isinstance(n, ast.If) and
+              ast.unparse(n.test) == "self._rust_iter is not None"]
+    rep.ob(rule, len(calls) == 1 and len(guards) == 1 and any(
+        x is calls[0] for x in ast.walk(guards[0])), loc=ex.loc(),
+           where=ex.qualname,
+           construct="if self._rust_iter is not None: "
+           "self._rust_iter.__exit__(...)",
+           message="a live native iterator is released on exit")
+    en = ctx.fn(f"{RG}.__enter__")
+    rep.ob(rule, any(isinstance(n, ast.Return) and dotted(n.value) == "self"
+                     for n in en.body_nodes()), loc=en.loc(), where=en.qualname,
+           construct="return self", message="the context manager yields the "
+           "generator object itself")
+
+
 def check_epoch(ctx: Context, rep, rule: str) -> None:
     single = ctx.fn(f"{RG}._single_iter")
     ctor = [c for c in single.calls() if ast.unparse(c.func).endswith(
@@ -82,6 +133,8 @@ def run(ctx: Context, rep) -> None:
     rustrules.check_vtables(ctx, rep, "C15.vtable")
     rustrules.check_rotation(ctx, rep, "C15.rot")
     rustrules.check_drop(ctx, rep, "C15.drop")
+    rustrules.check_channels(ctx, rep, "C15.channels")
+    check_release(ctx, rep, "C15.release")
     rustrules.check_cursor(ctx, rep, "C15.cursor")
     rustrules.check_static_map(ctx, rep, "C15.map")
 
@@ -210,6 +263,12 @@ SELFTESTS = [
     dict(rule="C15.drop", name="drop-instead-of-clear-twin", expect="silent", path=_PM,
          old="        for communication in &self.communication {\n            let _ = communication.send.send(None);\n        }\n        self.communication.clear();\n",
          new="        drop(std::mem::take(&mut self.communication));\n"),
+    dict(rule="C15.channels", name="rendezvous-channels", expect="fire", path=_PM,
+         old="let (tx_item, rx_item) = std::sync::mpsc::channel::<Option<Item>>();",
+         new="let (tx_item, rx_item) = std::sync::mpsc::sync_channel::<Option<Item>>(0);"),
+    dict(rule="C15.release", name="generator-without-with", expect="fire", path=_DI,
+         old="        with RustGenerator(\n                dataset=self,\n                split=split,\n                process_record=process_record,\n                shards=shards,\n                shard_filter=shard_filter,\n                repeat=repeat,\n                file_parallelism=file_parallelism,\n                shuffle=shuffle,\n        ) as rust_generator:\n            yield from rust_generator()",
+         new="        rust_generator = RustGenerator(\n                dataset=self,\n                split=split,\n                process_record=process_record,\n                shards=shards,\n                shard_filter=shard_filter,\n                repeat=repeat,\n                file_parallelism=file_parallelism,\n                shuffle=shuffle,\n        )\n        yield from rust_generator()"),
     dict(rule="C15.cursor", name="cursor-gt", expect="fire", path=_EI,
          old="if self.used_examples >= self.total_examples {",
          new="if self.used_examples > self.total_examples {"),
